@@ -130,3 +130,30 @@ register("C15", "exploration",
          "Bounded: bench texts from a dialect model (both cases, BUFF, DFF chains, line orders, whitespace variants, comments) are read by the real reader and compared net by net under every valuation with an independent evaluator; writer->reader round trip on generated circuits incl. constants.",
          "oracle = bench evaluator in bounded/c15.py + vlib.oracle; regex tokenisation only testable by running it",
          explanation="bounded stand-in of the bench contracts")
+
+
+# ---------------------------------------------------------------------------------------------------------------
+# Claimed levels for the properties whose proved core is complete on the current tree (DESIGN section 12).
+# (`proof` is claimed only when every obligation of the listed core is discharged; everything else stays bounded.)
+LEVELS = {
+    "C16": ("proof",
+            "Proof: every postcondition of remove_unloaded taken from the property statement (returned list = deleted set, never deletes a protected node for either value of the flag, survivors keep type/output/fan-in, fixpoint, graph invariant, registry untouched) is discharged by z3 on VCs generated from the current source of the real method, with the worklist invariant of DESIGN 8/C16; M2 (Lean-checked) links the proved local facts to 'exactly the dead logic'. The bounded stand-in of the same contract runs as cross-check and counterexample finder.",
+            "assumed: networkx DiGraph contracts (pyvc/models.py); layer-1 contracts are proved (refines obligations); acyclicity only enters through M2; termination not proved"),
+    "C20": ("proof",
+            "Proof for lint itself: 'raises ValueError iff a documented rule is violated, raises nothing else, touches nothing' is discharged for all 16 flag combinations at once (flags symbolic) on VCs generated from the real source, with per-rule loop invariants. Second half (library outputs are lint-clean) is bounded: generators, parser outputs and transform results are checked against the spec predicate, not against cg.lint.",
+            "assumed: networkx contracts; string facts about '.' are uninterpreted (has_dot / prefix before the first dot) and shared by code model and spec"),
+    "C01": ("proof",
+            "Proof: sat.cnf is sound and complete per gate arm for an arbitrary assignment (and/nand/or/nor with unbounded fan-in, buf/not/bb_input incl. undriven, constants, inputs, parity gates with 1..2 drivers, every node variable occurs in a clause); add_assumptions, construct_solver and solve are proved against that contract and the assumed pysat contract (False only if no consistent valuation agrees with A; otherwise a total, consistent valuation agreeing with A; ValueError only for unencodable types / unknown assumption keys). Parity gates with >=3 drivers (the auxiliary chain) are covered by the bounded stand-in only.",
+            "assumed: pysat contract (python-sat absent; shim written to it), networkx contracts; M1, M6 (Lean-checked) for the functional reading / witness extension; parity chain >=3: bounded"),
+    "C04": ("proof",
+            "Proof: the structural postcondition of tx.miter (node set, disjointness from add()'s existence checks, copies with inputs turned into buffers, ties, xor per endpoint, or/buf output, inputs = tied startpoints, outputs = {sat}, arguments untouched, fresh result) is discharged on the real body for self/pair and default/explicit startpoint-endpoint variants, and the encoding lemma (sat <=> some compared endpoint differs; ties; untied copy inputs free) is discharged over that structure. solve(miter,{sat:1}) then follows from the C01 contract. Bounded stand-in as cross-check.",
+            "assumed: contract of Circuit.add_subcircuit (contracts/layer2.py; bounded-checked by C06), networkx contracts; M1, M5 (graph-isomorphism invariance of consistency, not Lean-checked)"),
+}
+for _p, (_lvl, _txt, _note) in LEVELS.items():
+    CHECKS[_p]["level"] = _lvl
+    CHECKS[_p]["level_text"] = _txt
+    CHECKS[_p]["level_note"] = _note
+    CHECKS[_p]["lean"] = True
+for _p in ("C07", "C12", "C13", "C19"):
+    CHECKS[_p]["level_text"] = ("Bounded stand-in of the contract, PLUS proved obligations for part of the functions the property depends on "
+                                "(reported in evidence.coverage.obligations/functions_under_contract; not claimed as a proof of the whole property): ") + CHECKS[_p]["level_text"]
